@@ -756,8 +756,8 @@ impl TransactionBuilder {
                             #[cfg(feature = "verif-hooks")]
                             crate::verif_hooks::probe("ri_improve_swap", *j as u64);
                             std::mem::swap(i, j);
-                            available_indices.insert(*i);
-                            available_indices.remove(j);
+                            available_indices.remove(i);
+                            available_indices.insert(*j);
                         }
                     }
                 }
